@@ -156,3 +156,10 @@ func VerifCRDTShutdown(r distsys.ArchetypeResource) {
 		}
 	}
 }
+
+// VerifCRDTReceiver returns the RPC receiver NewCRDT registers for the instance (the same type and
+// the same instance state), so that a harness can put a gate in front of a real peer: the gate is an
+// RPC service that forwards every call to this receiver's unchanged ReceiveValue.
+func VerifCRDTReceiver(r distsys.ArchetypeResource) *CRDTRPCReceiver {
+	return &CRDTRPCReceiver{crdt: r.(*crdt)}
+}
